@@ -43,6 +43,7 @@ type task struct {
 	blocked  bool
 	at       string
 	fn       func() string // returns a violation detail or ""
+	verify   func() string // race tier: judges the result after the concurrent phase
 	result   string
 	panicked string
 }
@@ -316,6 +317,23 @@ func (gstHarness) Exec(p *simkit.Program) *simkit.Result {
 					existed = chain.set(idx) != nil
 				}
 				g, err := gs.GetGuardianSet(ctx, idx)
+				if raceBuild {
+					// race tier: only the call runs concurrently; the result is judged afterwards so that
+					// the harness's own locking (simulated chain) does not order the tasks
+					t.verify = func() string {
+						if err != nil {
+							if existed {
+								return fmt.Sprintf("GetGuardianSet(%d) failed although the chain had that set before the call: %v", idx, err)
+							}
+							return ""
+						}
+						if chain.set(idx) == nil {
+							return fmt.Sprintf("GetGuardianSet(%d) returned a set for an index that does not exist on chain", idx)
+						}
+						return check(g, idx, fmt.Sprintf("GetGuardianSet(%d)", idx))
+					}
+					return ""
+				}
 				if err != nil {
 					if existed {
 						return fmt.Sprintf("GetGuardianSet(%d) failed although the chain had that set before the call: %v", idx, err)
@@ -332,6 +350,15 @@ func (gstHarness) Exec(p *simkit.Program) *simkit.Result {
 			t := &task{name: fmt.Sprintf("current#%d", i)}
 			t.fn = func() string {
 				g := gs.GetCurrentGuardianSet()
+				if raceBuild {
+					t.verify = func() string {
+						if g == nil {
+							return "GetCurrentGuardianSet returned nil"
+						}
+						return check(g, int(g.Index), "GetCurrentGuardianSet")
+					}
+					return ""
+				}
 				if g == nil {
 					return "GetCurrentGuardianSet returned nil"
 				}
@@ -375,6 +402,9 @@ func (gstHarness) Exec(p *simkit.Program) *simkit.Result {
 		wg.Wait()
 		for _, t := range tasks {
 			t.done = true
+			if t.verify != nil && t.panicked == "" {
+				t.result = t.verify()
+			}
 		}
 	}
 	for _, t := range tasks {
